@@ -223,11 +223,11 @@ def shape_results(spec, cfg, mods=None, timeout_ms=20000):
         return {"latent": P.encode(x), "decoded": P.roundtrip(x)}
 
     def c_round(o, d):
-        return list(zip(o["decoded"], (d["B"], P.out_ch, d["H"], d["W"])))
+        return list(zip(o["decoded"], (d["B"], P.out_ch, d["H"], d["W"]))) + [(len(o["decoded"]), 4)]
 
     def c_latent(o, d):
         hh, ww = E3.Shp.div(d["H"], f_doc), E3.Shp.div(d["W"], f_doc)
-        return list(zip(o["latent"], (d["B"], P.c_doc, hh, ww))) + [(hh * f_doc, d["H"]), (ww * f_doc, d["W"])] + ([(len(o["latent"]), 4)] if isinstance(d["B"], int) else [])
+        return list(zip(o["latent"], (d["B"], P.c_doc, hh, ww))) + [(hh * f_doc, d["H"]), (ww * f_doc, d["W"])] + [(len(o["latent"]), 4)]
 
     def c_ratio(o, d):
         lat = o["latent"]
@@ -264,7 +264,7 @@ def shape_results(spec, cfg, mods=None, timeout_ms=20000):
         return {"decoded": P.decode_latent(z, f)}
 
     def c_dec(o, d):
-        return list(zip(o["decoded"], (d["B"], P.out_ch, f * d["h"], f * d["w"])))
+        return list(zip(o["decoded"], (d["B"], P.out_ch, f * d["h"], f * d["w"]))) + [(len(o["decoded"]), 4)]
 
     prob_d = E3.ShapeProblem(names=("B", "C", "h", "w"), channels={1: P.dec_in_ch}, pre=pre_d, run=run_d, clauses={"decoder_shape": c_dec}, canary=lambda o, d: [(o["decoded"][2], f * d["h"] + 1)])
     try:
